@@ -3,7 +3,7 @@
  "name": "p2_check_name_repair",
  "props": ["C01"],
  "level": "U",
- "tier": "wip",
+ "tier": "quick",
  "harness": "h_name_repair",
  "enforce": ["check_name"],
  "loop_contracts": true,
@@ -24,7 +24,7 @@
  "name": "p2_check_name_detect",
  "props": ["C02"],
  "level": "U",
- "tier": "wip",
+ "tier": "quick",
  "harness": "h_name_detect",
  "enforce": ["check_name"],
  "loop_contracts": true,
@@ -46,7 +46,7 @@
  "name": "p2_check_name_sound",
  "props": ["C05", "C01"],
  "level": "U",
- "tier": "wip",
+ "tier": "quick",
  "harness": "h_name_sound",
  "enforce": ["check_name"],
  "loop_contracts": true,
@@ -67,7 +67,7 @@
  "name": "p2_check_name_converge_k",
  "props": ["C01"],
  "level": "U/k",
- "tier": "wip",
+ "tier": "thorough",
  "harness": "h_name_converge",
  "includes": ["e2fsck", "lib/support"],
  "sources": ["lib/ext2fs/dir_iterate.c"],
